@@ -39,6 +39,16 @@ func ColdMain(spec string) {
 		coldConcurrent(spec)
 		return
 	}
+	if strings.HasPrefix(spec, "seq|") {
+		// a short SEQUENCE of operations as the first calls of a fresh process: what the
+		// second one finds depends on which entry point initialised the shared state
+		var parts []string
+		for _, sp := range strings.Split(spec, "|")[1:] {
+			parts = append(parts, hex.EncodeToString(coldExec(sp)))
+		}
+		fmt.Printf("COLD %s\n", strings.Join(parts, ","))
+		return
+	}
 	fmt.Printf("COLD %x\n", coldExec(spec))
 }
 
@@ -428,6 +438,23 @@ func runColdStart(r *mon.Run, id string, n int, ops ...string) {
 	r.Each(id+"/cold-start", n, func(w *mon.W, i int) {
 		op := ops[i%len(ops)]
 		spec, want := coldCase(w.Rng, op, pool)
+		wantHex := hex.EncodeToString(want)
+		if (i/len(ops))%3 == 1 && len(ops) > 1 {
+			// a sequence of two or three different operations (every ordered pair comes up)
+			k := 2 + w.Rng.Intn(2)
+			specs := []string{strings.Fields(spec)[0]}
+			wants := []string{wantHex}
+			for j := 1; j < k; j++ {
+				op2 := ops[(i+j*(1+(i/len(ops))/3))%len(ops)]
+				sp2, w2 := coldCase(w.Rng, op2, pool)
+				specs = append(specs, strings.Fields(sp2)[0])
+				wants = append(wants, hex.EncodeToString(w2))
+				op += "," + op2
+			}
+			spec, wantHex = "seq|"+strings.Join(specs, "|"), strings.Join(wants, ",")
+			w.Class(id + ":cold:sequence")
+			op = "sequence(" + op + ")"
+		}
 		w.Case(true, []byte("cold"), []byte(spec))
 		cmd := exec.Command(exe, "-cold", strings.Fields(spec)[0])
 		cmd.Env = append(os.Environ(), "GORACE=halt_on_error=0")
@@ -443,16 +470,17 @@ func runColdStart(r *mon.Run, id string, n int, ops ...string) {
 				got = strings.TrimSpace(l[5:])
 			}
 		}
-		w.Class(id + ":cold:" + op)
+		w.Class(id + ":cold:" + ops[i%len(ops)])
 		if i < 2 {
 			w.Sample(map[string]any{"monitor": "cold-start", "spec": spec})
 		}
-		if err != nil || got != hex.EncodeToString(want) {
+		if err != nil || got != wantHex {
+			want = []byte(wantHex)
 			tail := string(outb)
 			if len(tail) > 600 {
 				tail = tail[len(tail)-600:]
 			}
-			w.Fail(id+"/cold-start/"+op, fmt.Sprintf("%s as the FIRST library call of a fresh process returned %q (err %v), expected %x", op, got, err, want), "spec", spec, "child_output_tail", tail)
+			w.Fail(id+"/cold-start/"+op, fmt.Sprintf("%s as the FIRST library call of a fresh process returned %q (err %v), expected %s", op, got, err, want), "spec", spec, "child_output_tail", tail)
 		}
 	})
 }
